@@ -1102,3 +1102,23 @@ def agg_stmts(body, op_or_local):
         if r[0] == 'agg':
             out.append(body.blocks[r[1]]['stmts'][r[2]])
     return out
+
+
+def agg_direct(body, op, max_hops=10):
+    """the aggregate statement that directly builds the value of an operand
+    (through whole-value moves/copies only); None if it is not an aggregate"""
+    if op['k'] not in ('copy', 'move') or op['place']['p']:
+        return None
+    l = op['place']['l']
+    for _ in range(max_hops):
+        defs = [d for d in body.defs_of(l) if d[0] in ('stmt', 'call')]
+        if len(defs) != 1 or defs[0][0] != 'stmt':
+            return None
+        rv = defs[0][3]['rv']
+        if rv['k'] == 'aggregate':
+            return defs[0][3]
+        if rv['k'] == 'use' and rv['op']['k'] in ('copy', 'move') and not rv['op']['place']['p']:
+            l = rv['op']['place']['l']
+            continue
+        return None
+    return None
